@@ -162,6 +162,7 @@ def run(c):
                want=lambda names: names.count('Register') >= 2 and 'Unregister' in names)
     c12.concurrent_leg(c, c12.CONCURRENT_SCRIPTS[2:], 2 if quick else 3, 400 if quick else 6000)
     behavioural(c, wd)
+    c12.mixed_locations_leg(c)
     while_shut_down_leg(c, wd)
 
 
